@@ -1,5 +1,8 @@
 import Xp.Base.JsonIO
 import Xp.Model.C05
+import Xp.Model.C05Fn
+import Xp.Model.C05Claim
+import Xp.Model.C05Ready
 import Xp.Drv.C01
 namespace Xp.C05
 open Lean (Json)
@@ -20,9 +23,136 @@ def claimHandler : Handler := fun scn =>
   .ok (Json.mkObj [("conds", Json.arr ((sortConds out).map condJson).toArray), ("claimTypes", Json.arr #[]), ("wrote", .bool true)],
        ok, if ok then "" else "C05:claim-ready-without-xr-ready")
 
+def ecOf : String → Option EC
+  | "generic" => some .generic | "invalid" => some .invalid | "conflict" => some .conflict
+  | "notFound" => some .notFound | "alreadyExists" => some .alreadyExists | "forbidden" => some .forbidden
+  | "temporary" => some .temporary | "deadline" => some .deadline | _ => none
+
+def phaseOf : String → Option Phase
+  | "get" => some .get | "finalizer" => some .finalizer | "select" => some .select | "fetch" => some .fetch
+  | "validate" => some .validate | "configure" => some .configure | "compose" => some .compose
+  | "publish" => some .publish | _ => none
+
+def resOf (j : Json) : Res := ⟨str j "name", bool j "synced", bool j "ready"⟩
+def fnCondOf (j : Json) : FnCond := ⟨condOf j, bool j "claim"⟩
+def explicitOf (j : Json) : Option Bool :=
+  match str j "explicit" with | "true" => some true | "false" => some false | _ => none
+
+def callOf (j : Json) : Call :=
+  { paused := bool j "paused", composed := (arr j "composed").map resOf, explicit := explicitOf j,
+    fn := (arr j "fnConds").map fnCondOf,
+    fault := match phaseOf (str j "phase"), ecOf (str j "err") with
+      | some p, some e => some (p, e) | _, _ => none,
+    lost := str j "lost" != "" || str j "disturb" != "" }
+
+def stJson (st : St) (wrote : Bool) : Json := Json.mkObj [
+  ("conds", Json.arr ((sortConds st.conds).map condJson).toArray),
+  ("claimTypes", Json.arr ((st.claimTypes.mergeSort (· ≤ ·)).map Json.str).toArray),
+  ("wrote", .bool wrote)]
+
+/-- model-side verdict of one step: the property predicate on the model's own run -/
+def stepOk (old : St) (c : Call) (new : St) : Bool :=
+  let ready := statusOf new.conds "Ready" == some "True"
+  let synced := statusOf new.conds "Synced" == some "True"
+  let clean := !c.lost && !c.paused && c.fault.isNone
+  if clean then
+    (!ready || c.explicit == some true || (c.explicit == none && c.composed.all (·.ready))) &&
+    (!synced || c.composed.all (·.synced))
+  else
+    (!ready || statusOf old.conds "Ready" == some "True") && (!synced || statusOf old.conds "Synced" == some "True")
+
+def seqHandler : Handler := fun scn =>
+  let sts : List St := (arr scn "xrs").map fun j => ⟨(arr j "old").map condOf, []⟩
+  let steps : List Step := (arr scn "steps").map fun j => ⟨nat j "xr", callOf j⟩
+  let tr := traceSeq sts steps
+  let out := Json.mkObj [("steps", Json.arr (tr.map fun (st, w) => stJson (st.getD ⟨[], []⟩) w).toArray)]
+  -- verdict: walk the sequence again
+  let rec go (sts : List St) : List Step → Bool
+    | [] => true
+    | s :: ss =>
+      let r := stepSeq sts s
+      (match sts[s.xr]?, r.1[s.xr]? with
+        | some o, some n => stepOk o s.call n
+        | _, _ => true) && go r.1 ss
+  let ok := go sts steps
+  .ok (out, ok, if ok then "" else "C05:overstated")
+
+def readyOf (s : String) : Option Bool := match s with | "true" => some true | "false" => some false | _ => none
+
+def fnStepOf (j : Json) : FnStep :=
+  { conds := (arr j "conds").map fun c =>
+      (⟨⟨str c "type", (if str c "status" == "Unspecified" then "Unknown" else str c "status"), str c "reason"⟩, bool c "claim"⟩ : FnCond),
+    fatal := (strs j "results").contains "fatal", err := bool j "err",
+    res := (arr j "res").map fun r => (⟨str r "name", readyOf (str r "ready"), bool r "invalid"⟩ : FnRes),
+    xrReady := readyOf (str j "xrReady"), statusConds := (arr j "statusConds").map condOf }
+
+def fnHandler : Handler := fun scn =>
+  let sts : List St := (arr scn "xrs").map fun j => ⟨(arr j "old").map condOf, []⟩
+  let recs : List (Nat × FnRec) := (arr scn "recs").map fun j =>
+    (nat j "xr", ⟨(arr j "steps").map fnStepOf, ecOf (str j "publish"), str j "lost" != ""⟩)
+  let tr := fnTrace sts recs
+  let out := Json.mkObj [("steps", Json.arr (tr.map fun (st, w) => stJson (st.getD ⟨[], []⟩) w).toArray)]
+  .ok (out, true, "")
+
+def viewOf (j : Json) : XRView := ⟨(arr j "conds").map condOf, strs j "claimTypes"⟩
+def optView (j : Json) (k : String) : Option XRView := if has j k then some (viewOf (obj j k)) else none
+def refOf (j : Json) : Ref := ⟨str j "apiVersion", str j "kind", str j "ns", str j "name"⟩
+
+def cpointOf : String → Option CPoint
+  | "getClaim" => some .getClaim | "getXR" => some .getXR | "sync" => some .sync
+  | "propagate" => some .propagate | "status" => some .status | _ => none
+
+def claimSeqHandler : Handler := fun scn =>
+  let claimsJ := arr scn "claims"
+  let w : CWorld := {
+    claims := claimsJ.map fun j => (arr j "old").map condOf,
+    xrs := (arr scn "xrs").map fun j =>
+      { present := bool j "present", ref := (if has j "ref" then some (refOf (obj j "ref")) else none),
+        view := if bool j "present" then viewOf (obj j "view") else emptyView } }
+  let steps : List CStep := (arr scn "steps").map fun j =>
+    let ci := nat j "claim"
+    let cj := claimsJ.getD ci Json.null
+    { claim := ci, xr := nat cj "xr", set := optView j "set",
+      call := { ssa := bool scn "ssa", self := ⟨"example.org/v1", "Thing", str cj "ns", str cj "name"⟩,
+                paused := bool j "paused", stale := bool j "stale", flip := optView j "flip",
+                fault := match cpointOf (str j "point"), ecOf (str j "err") with
+                  | some p, some e => some (p, e) | _, _ => none } }
+  let tr := ctrace w steps
+  let out := Json.mkObj [("steps", Json.arr (tr.map fun (cs, wrote) =>
+    Json.mkObj [("conds", Json.arr ((sortConds (cs.getD [])).map condJson).toArray),
+                ("claimTypes", Json.arr #[]), ("wrote", .bool wrote)]).toArray)]
+  .ok (out, true, "")
+
+def readyHandler : Handler := fun scn =>
+  let oj := obj scn "obj"
+  let o : RObj := {
+    s := (match optStr oj "s" with | some v => .str v | none => .absent),
+    n := (match (oj.getObjValAs? Int "n").toOption with | some v => .int v | none => .absent),
+    b := (match optBool oj "b" with | some v => .bool v | none => .absent),
+    conds := (arr oj "conds").map condOf }
+  let cs : List RCheck := (arr scn "checks").map fun j =>
+    ⟨str j "type", str j "path", str j "ms", int j "mi", bool j "hasCond", str j "ct", str j "cs"⟩
+  let r := match isReady o cs with | some true => "true" | some false => "false" | none => "error"
+  .ok (Json.mkObj [("result", .str r)], true, "")
+
+def ptHandler : Handler := fun scn =>
+  let sts : List St := (arr scn "xrs").map fun j => ⟨(arr j "old").map condOf, []⟩
+  let recs : List (Nat × PTRec) := (arr scn "recs").map fun j =>
+    (nat j "xr", ⟨(arr j "res").map fun r => (⟨str r "name", bool r "ready", bool r "invalid"⟩ : PTRes),
+                  (if int j "patch" ≥ 0 then some ((int j "patch").toNat, str j "patchTo") else none),
+                  ecOf (str j "publish"), str j "lost" != ""⟩)
+  let tr := ptTrace sts recs
+  let out := Json.mkObj [("steps", Json.arr (tr.map fun (st, w) => stJson (st.getD ⟨[], []⟩) w).toArray)]
+  .ok (out, true, "")
+
 def handler : Handler := fun scn =>
   if has scn "mode" then Xp.C01.handler scn else   -- an XR world: the reconcile model of C01
   if str scn "kind" == "claim" then claimHandler scn else
+  if str scn "kind" == "seq" then seqHandler scn else
+  if str scn "kind" == "fn" then fnHandler scn else
+  if str scn "kind" == "ptst" then ptHandler scn else
+  if str scn "kind" == "ready" then readyHandler scn else
+  if str scn "kind" == "claimseq" then claimSeqHandler scn else
   let old : St := ⟨(arr scn "old").map condOf, []⟩
   let composed := (arr scn "composed").map fun j => (⟨str j "name", bool j "synced", bool j "ready"⟩ : Res)
   let explicit := match str scn "explicit" with | "true" => some true | "false" => some false | _ => none
